@@ -38,7 +38,7 @@ var (
 	c09big95       = core.RegCounter("c09.batches_with_95_or_more_entries")
 	c09big190      = core.RegCounter("c09.batches_with_190_or_more_entries")
 	c09empty       = core.RegCounter("c09.empty_batches_verified")
-	c09again = core.RegCounter("c09.batches_finished_again_without_reset")
+	c09again       = core.RegCounter("c09.batches_finished_again_without_reset")
 	c09reset       = core.RegCounter("c09.verifier_reused_after_reset")
 	c09force       = core.RegCounter("c09.force_no_expansion")
 	c09batchOnly   = core.RegCounter("c09.verify_batch_only_calls")
